@@ -1240,8 +1240,11 @@ func genCase(ch chooser, maxFiles, maxSegs int) Case {
 			return name + ext
 		}
 		path := mk()
-		for clash(path) {
+		for tries := 0; clash(path); tries++ {
 			name += "x"
+			if tries >= 2 { // the directory itself is taken by a file (x.py and x.py/...)
+				dir = "alt"
+			}
 			path = mk()
 		}
 		used[path] = true
@@ -1328,9 +1331,11 @@ func genDefaults(t *rapid.T) Case {
 
 func init() {
 	pbt.SetProperty("C17")
-	pbt.Describe("rapid-generated directories of 1-3 files; a file is 0-12 (thorough 0-18) segments: code tokens (identifiers incl. TODO/FIXME, numbers, operators incl. / and *, separators), Java-style string literals and one-character char literals containing //, /*, */, #, TODO, escapes, line / block / hash comments, white space (incl. CRLF), optionally an unterminated block comment as last segment. Comment text = blanks + [TODO|FIXME in 10 letter cases] + ['' | ':' | '(name)' | '(name):'] + blanks + text built from hostile pieces (comment markers, quotes, parentheses, colons, non-ASCII, words that mention TODO/FIXME, in block comments line breaks with and without ' * ' decoration); also empty, one-character and blanks-only comments. File extensions from the selected list, from the CLI's default list, and near misses (.javax, .java.txt, .java~, .kts, .gradle.kts ...). Expected entries (file, start line, assignee, message) are computed from the segments. Non-trivial = a file with a selected extension holds at least one reportable comment and at least one decoy (literal containing a comment marker or TODO/FIXME, or comment mentioning TODO/FIXME later); distinct = hash of the sorted (selected?, extension, text) of the files.",
+	pbt.Describe("rapid-generated directories of 1-3 (now and then up to 5) files in the directory itself or in sub-directories (plain, hidden, vendor / node_modules / build / target / testdata, four levels deep, and directories whose own name ends in a selected extension: node_modules/highlight.js, pkg.java, x.py, app.go); a file is 0-12 (thorough 0-18) segments: code tokens (identifiers incl. TODO/FIXME, numbers, operators incl. / and *, separators), Java-style string literals, one-character char literals and back-tick template / raw string literals (possibly multi-line) containing //, /*, */, #, TODO, escapes, line / block / hash comments, white space (incl. CRLF and runs of line breaks, so that comments start on lines >= 10), optionally an unterminated block comment as last segment. Comment text = blanks + [TODO|FIXME in 10 letter cases] + ['' | ':' | '(name)' | '(name):' | a punctuation character -.!,;?/=> directly after the mark] + blanks + text built from hostile pieces (comment markers, quotes, parentheses, colons, non-ASCII, words that mention TODO/FIXME, in block comments line breaks with and without ' * ' decoration); names from the tool's assignee alphabet incl. upper case, leading digit or underscore, long; also empty, one-character and blanks-only comments. File extensions from the selected list, from the CLI's default list, and near misses (.javax, .java.txt, .java~, .kts, .gradle.kts, .cc, .hh ...); filters from the default list plus .c .rb .txt .h .f90 .c++ .m4 .s. Sequences: the same scan twice; a second scan of the same directory with other filters (same process / same working directory) and then the first again; a scan of one selected file by its own path. Entry points: todo.TodoApp.AnalysisPath (absolute path, with and without trailing slash) and `coca todo` with -p src | absolute | ./src | src/ | . | no -p (working directory = the directory), -p/-e or --path/--ext=, and without -e (documented default list; sub-check cli_default puts a reportable comment into one file per default extension). Expected entries (file, start line, assignee, message) are computed from the segments; for the CLI the table on stdout must have one row per entry of simple-todos.json with the same line numbers and 'Todos Count' must be their number. Non-trivial = a file with a selected extension holds at least one reportable comment and at least one decoy (literal containing a comment marker or TODO/FIXME, or comment mentioning TODO/FIXME later); distinct = hash of the sorted (selected?, extension, text) of the files.",
 		"messages are compared after collapsing white space and trimming; in block comments an asterisk counts as white space on both sides (continuation-line decoration and terminator), in line and hash comments it is ordinary text",
-		"forms the statement leaves open are not generated: mark directly followed by a letter (TODOS), message starting with ':' or '(' , blank between mark and '(name)', names outside [A-Za-z0-9_ .+-@] or with outer blanks, /** doc comments, Unicode white space or letters that upper-case to ASCII directly after the comment marker, form feed / U+2028 line ends, template (back-tick) strings, .gitignore files, directories named like files",
+		"forms the statement leaves open are not generated: mark directly followed by a letter, digit or underscore (TODOS, TODO1), message starting with ':' or '(' , blank between mark and '(name)', names outside [A-Za-z0-9_ .+-@] or with outer blanks, /** doc comments and block comments whose text starts on a later line, Unicode white space or letters that upper-case to ASCII directly after the comment marker, form feed / U+2028 line ends, back-slashes inside template strings, Python single-quoted and triple-quoted strings, .gitignore files, paths containing testData, extensions that differ from a filter only in letter case, filters with more than one dot",
+		"without -e the selected extensions are the default list documented by `coca todo --help` (.java,.py,.go,.ts,.js,.kt,.groovy,.gradle)",
+		"a file named by its own path is only scanned that way when its extension is selected (the walker applies no filter to a single file; the statement does not say)",
 		"entries on or after the line of an unterminated block comment at the end of a file are not judged (only crash-freedom)",
 		"every generated text is also lexed with the shipped CommentLexer under an error listener; a text it rejects is skipped and counted (expected: none)")
 	pbt.Register("api", 5000, 50000, genAPI, checkAPI)
